@@ -251,6 +251,8 @@ type verifC11Actors struct {
 	// lastTok: params.token (base64 text, as received) of the most recent reply of THIS sequence that carried one; the
 	// secret of {login scheme=token secret=prev}. Taken from the recorded reply, never from the table above.
 	lastTok string
+	// lastNoLogin: lastTok was handed out in reply to a login that presented a restricted (no-login) token (by history)
+	lastNoLogin bool
 }
 
 func (e *verifC11Env) newActors() *verifC11Actors {
@@ -752,6 +754,17 @@ func (e *verifC11Env) tokenOf(frames []verifFrame) (string, int, string, string,
 		return tok, int(code), e.abs(u), l, true
 	}
 	return "", 0, "", "", false
+}
+
+// tokenFeatures decodes the feature bits of a token of the real token authenticator (auth/token tokenLayout, little endian:
+// uid uint64, expires uint32, authLevel uint16, serial uint16, features uint16, then the HMAC): (validated, nologin, ok).
+func verifC11TokenFeatures(b64tok string) (bool, bool, bool) {
+	b, err := base64.StdEncoding.DecodeString(b64tok)
+	if err != nil || len(b) < 18 {
+		return false, false, false
+	}
+	f := auth.Feature(uint16(b[16]) | uint16(b[17])<<8)
+	return f&auth.FeatureValidated != 0, f&auth.FeatureNoLogin != 0, true
 }
 
 // abstract view of the frames of one step: ctrl codes/ids, meta ids + whose desc, data from/sender.
